@@ -69,6 +69,23 @@ def stage_suite(ctx):
     ctx.suite("pinch_idx", cases=len(cols), agree=agree, fragile_skipped=frag, mismatch=mism, property_false=bad)
 
 
+def gen_near_pinch(rng):
+    """Two candidate pinches whose residuals differ by a sliver d of duty, 5e-6 <= |d| <= 4.5e-5 kW: well above the zero tolerance of the
+    code (1e-6 kW) and below the 4-decimal display rounding.  Only the true zero is a pinch."""
+    t0 = rng.choice([40.0, 60.0, 100.0])
+    w1, w2, w3 = (rng.choice([20.0, 30.0, 50.0]) for _ in range(3))
+    a, b, c = t0 + w1, t0 + w1 + w2, t0 + w1 + w2 + w3          # t0 < a < b < c
+    q = rng.choice([16.0, 40.0, 125.0])
+    d = rng.choice([5e-6, 1e-5, 3e-5, 4.5e-5]) * rng.choice([1, -1])
+    dt = rng.choice([0.0, 2.5])
+    S = lambda nm, ts, tt, h: dict(zone="Z", name=nm, t_supply=ts, t_target=tt, heat_flow=h, dt_cont=dt, htc=1.0)   # noqa: E731
+    streams = [S("ctop", b - dt, c - dt, rng.choice([10.0, 20.0])),           # deficit above b
+               S("cmid", a - dt, b - dt, q + d), S("hmid", b + dt, a + dt, q),  # between a and b: net deficit d (pinch at a if d > 0, at b if d < 0)
+               S("hbot", a + dt, t0 + dt, rng.choice([50.0, 80.0]))]          # surplus below a
+    rng.shuffle(streams)
+    return dict(streams=streams, utilities=[]), dict(zones=1, shapes=["near_pinch"], regime="none")
+
+
 def e2e_suite(ctx):
     n = ctx.budget(120, 4000)
     probs = []
@@ -76,6 +93,9 @@ def e2e_suite(ctx):
                         dict(zone="Z", name="c", t_supply=50.0, t_target=100.0, heat_flow=50.0, dt_cont=0.0, htc=1.0)], utilities=[])
     probs.append((bal, dict(zones=1, shapes=["balanced_everywhere"], regime="none")))          # D18 witness end to end
     for i in range(n):
+        if i % 6 == 5:
+            probs.append(gen_near_pinch(ctx.rng))
+            continue
         prob, m = pc.gen_problem(ctx.rng, nmax=6)
         if i % 4 == 0:
             # sub-ambient variant: translate everything so that one shifted stream end point (a pinch candidate) is exactly 0.0
